@@ -96,8 +96,10 @@ func (d *deduplicationStrategy) eval(
 		}
 		del = append(del, refs...)
 		d.counts["refs"] += len(refs)
-	} else if e.IsDeleted == d.prev.IsDeleted {
-		// if the entity is not equal to the previous entity, we can still check for just reference duplicates
+	} else if e.IsDeleted == d.prev.IsDeleted && !laterVersionInSameBatch(jsonKey, txn) {
+		// if the entity is not equal to the previous entity, we can still check for just reference duplicates.
+		// versions of one batch share their reference keys (same txn time): only the last version of a batch
+		// may give its keys up, an earlier one would take them from the versions behind it
 		for k, stringOrArrayValue := range e.References {
 			if reflect.DeepEqual(d.prev.References[k], stringOrArrayValue) {
 				// reference is identical to previous version, so we can delete the current reference
@@ -151,6 +153,21 @@ func (d *deduplicationStrategy) eval(
 		return res, nil
 	}
 	return nil, nil
+}
+
+// laterVersionInSameBatch tells whether the entity has another version with the same txn time behind this one
+// (json key: 2:10 entity id, 10:14 dataset id, 14:22 txn time, 22:24 batch seq num)
+func laterVersionInSameBatch(jsonKey []byte, txn *badger.Txn) bool {
+	opts := badger.DefaultIteratorOptions
+	opts.PrefetchValues = false
+	opts.Prefix = jsonKey[:22]
+	it := txn.NewIterator(opts)
+	defer it.Close()
+	it.Seek(jsonKey)
+	if it.ValidForPrefix(opts.Prefix) && bytes.Equal(it.Item().Key(), jsonKey) {
+		it.Next()
+	}
+	return it.ValidForPrefix(opts.Prefix)
 }
 
 // findChangeLogKeys finds the change log key for a given json key. format:
